@@ -9,6 +9,9 @@ d = os.path.join(ROOT, "seeded", tag)
 patch = os.path.join(d, "patch.diff")
 meta_p = os.path.join(d, "meta.json")
 meta = json.load(open(meta_p)) if os.path.exists(meta_p) else {}
+if meta.get("obsolete") and not os.environ.get("SEED_FORCE"):
+    print("%s: obsolete seed, skipped (%s)" % (tag, meta["obsolete"][:80]))
+    sys.exit(0)
 man = json.load(open(os.path.join(ROOT, "MANIFEST.json")))
 checks = {c["property_id"]: c for c in man["checks"]}
 if not ids:
